@@ -283,7 +283,7 @@ def base_inputs(ctx):
     ctx.rng.shuffle(ex)
     ex = ex[:ctx.n(10, 40)]
     syn = [(f'synthetic{i}', runner.params_to_text(configs.synthetic(ctx.rng, addons=(i % 2 == 0))))
-           for i in range(ctx.n(24, 150))]
+           for i in range(ctx.n(16, 150))]
     # add-ons (auto-detected from their names, no explicit switch) together with S-DAC-GT (explicit switch + parameters):
     # two families of prefixed keys that the simulator detects by scanning the dictionary
     for i in range(ctx.n(3, 20)):
@@ -346,6 +346,15 @@ def _client_run(a):
         return {'report': None, 'error': f'{type(e).__name__}: {e}'[:300]}
 
 
+def _list_valued(line):
+    """name, v1, v2, ...: list parameters are re-read from the raw line, they cannot travel through the params dict"""
+    try:
+        float(line[3].lstrip(',').split(',')[0].split('--')[0].strip())
+        return True
+    except ValueError:
+        return False
+
+
 def part_client_runs(ctx, bases):
     """GeophiresInputParameters(params, from_file_path=base): some parameters are moved from the file into the params dict (in two
     different dict orders), some of them ALSO stay in the base file with another value (duplicate names: the override must govern),
@@ -353,7 +362,9 @@ def part_client_runs(ctx, bases):
     from concurrent.futures import ProcessPoolExecutor
     rnd, jobs, meta, refs = ctx.rng, [], [], []
     for name, lines in bases:
-        movable = [l for l in lines if l[0] == 'p' and not layout.is_block(l[1]) and not layout._listlike(l) and l[1] != 'Print Output to Console']
+        movable = [l for l in lines if l[0] == 'p' and not layout.is_block(l[1]) and not _list_valued(l) and l[1] != 'Print Output to Console']
+        if len(movable) < 2:
+            continue
         moved = rnd.sample(movable, min(len(movable), rnd.randint(3, 6)))
         stale = set(id(l) for l in rnd.sample(moved, max(1, len(moved) // 2)))      # these stay in the base file with a junk value
         base = [(('p', l[1], rnd.choice(['99999', '0', 'junk', '-1']), '') if id(l) in stale else None) if l in moved else l for l in lines]
